@@ -126,7 +126,7 @@ def run(F, chk):
                 what = "GetBlockUnsafe call"
             chk.instance(R2, ok=ok, sample={"fn": fn["name"], "what": what})
             if not ok:
-                chk.violation("R15.2", "C15/R15.2:%s:%s" % (fn["name"], what), where(fn, n),
+                chk.violation("R15.2", "C15/R15.2:%s:%s" % (fn["name"].split("<")[0], what), where(fn, n),
                               "%s in %s is not dominated by a HasType/dynamic_cast test of the same object" % (what, fn["name"]))
     chk.floor(R2, 1)
 
